@@ -408,7 +408,10 @@ def levels(tier: str) -> list[dict]:
         if not live_notations()[i][1].definition.metavars():
             continue
         L.append(dict(label=f'pairs/{live_notations()[i][0]}', module=M, fn='h_pairs', kwargs=dict(idx=i), budget_s=bud, required=True, twin=(i == 1), small=True))
-    for alpha, ph, st in [('patterns', 'gamma', 2 if q else 3), ('proofs', 'proof', 2 if q else 3)]:
+    plan = [('patterns', 'gamma', 2), ('proofs', 'proof', 2), ('all', 'gamma', 2), ('patterns', 'claim', 2), ('small', 'proof', 3)]
+    if not q:
+        plan += [('patterns', 'gamma', 3), ('proofs', 'proof', 3), ('all', 'claim', 3), ('small', 'proof', 4), ('patterns', 'gamma', 4), ('proofs', 'proof', 4)]
+    for alpha, ph, st in plan:
         L.append(dict(label=f'steps/{alpha}/{ph}/steps={st}', module=M, fn='h_steps', kwargs=dict(alphabet=alpha, steps=st, phase=ph), budget_s=bud, required=True, twin=False))
     return L
 
